@@ -63,6 +63,8 @@ structure Series where
   badKeys : List String := []
   /-- some OTSDB datapoint of the series spelled the metric name with a JSON escape (`\u0063pu` for `cpu`): the same name -/
   nameEscaped : Bool := false
+  /-- keys whose VALUE some OTSDB datapoint of the series spelled with a JSON escape (`\u0058` for `X`): the same value -/
+  escKeys : List String := []
 deriving Repr, Inhabited
 
 inductive MOp where | eq | ne | re | nre
@@ -244,7 +246,7 @@ Repaired in the second metrics round (pending c08-1, c08-2, c09-16 … c09-25), 
 Oracle/E2EM.lean: `tag-value-not-a-string`, `escaped-metric-name`, `star-literal-matcher`, `label-values-of-all-keys`,
 `label-values-first-metric-only`, `vector-matching-label-chars`, `binop-one-sided-timestamp`, `set-operator-with-on`,
 `binop-division-by-zero`, `unary-minus`, `comparison-scalar-on-the-left`, `empty-intermediate-vector`,
-`mixed-name-vector-operand`.  Repaired by c09-26 (count over series that share one group id), still computed:
+`mixed-name-vector-operand`; c08-3: `escaped-tag-value-tsid`.  Repaired by c09-26 (count over series that share one group id), still computed:
 `name-regex-same-tagset` (aggregations only).  Repaired by c09-27, still computed: `empty-group-key`.
 Classes of REPAIRED deviations (`fixed:` lines) are still computed, so that a disagreement in such a class is
 reported under its old name should the defect return: `tsid-preimage-collision`, `no-tags`,
@@ -349,7 +351,11 @@ def classes (ds : List Series) (q : Query) (sel : List (Series × List (Nat × N
   -- (repaired, c08-2) the metric name of some ingested series was spelled with a JSON escape by some datapoint: it used to be
   -- stored with the escape sequence as its name
   let c11 := if ingested.any (·.nameEscaped) then ["escaped-metric-name"] else []
-  c1 ++ c2 ++ c3 ++ c3b ++ c4 ++ c5 ++ c6 ++ c6b ++ c6c ++ c6d ++ c6e ++ c6f ++ c7 ++ c8 ++ c9 ++ c10 ++ c11
+  -- (repaired, c08-3) a tag value of some ingested series was spelled with a JSON escape by some datapoints and without by
+  -- others: the TSID used to be hashed over the spelling, one series had two TSIDs — re-merged by the queries (results are
+  -- keyed by the rendered id) unless a crash came in between: the tags-tree entry of the second TSID was not flushed with the first
+  let c12 := if ingested.any (fun s => !s.escKeys.isEmpty) then ["escaped-tag-value-tsid"] else []
+  c1 ++ c2 ++ c3 ++ c3b ++ c4 ++ c5 ++ c6 ++ c6b ++ c6c ++ c6d ++ c6e ++ c6f ++ c7 ++ c8 ++ c9 ++ c10 ++ c11 ++ c12
 
 def isSmallInt (q : Rat) : Bool := q.den == 1 && q.num.natAbs < pow2 40
 
